@@ -8,9 +8,9 @@ Open Scope Z_scope.
 
 (* if/else: 1 runs exactly the true branch, 0 exactly the false branch, any other value fails
    with NotBinary right after the condition was popped - neither branch runs *)
-Theorem c06_if : forall m T K f t e s s1, step m Drop s = Ok s1 ->
-  (get s 0 = 1 -> exec_block m T K (S f) (BSplit t e) s = bind (exec_block m T K f t s1) (step m Noop)) /\
-  (get s 0 = 0 -> exec_block m T K (S f) (BSplit t e) s = bind (exec_block m T K f e s1) (step m Noop)) /\
+Theorem c06_if : forall m T K f t e s s1, cstep m Split Drop s = Ok s1 ->
+  (get s 0 = 1 -> exec_block m T K (S f) (BSplit t e) s = bind (exec_block m T K f t s1) (cstep m End Noop)) /\
+  (get s 0 = 0 -> exec_block m T K (S f) (BSplit t e) s = bind (exec_block m T K f e s1) (cstep m End Noop)) /\
   (get s 0 <> 0 -> get s 0 <> 1 ->
      exec_block m T K (S f) (BSplit t e) s = Err (NotBinary (get s 0)) s1).
 Proof.
@@ -22,10 +22,10 @@ Qed.
 Print Assumptions c06_if.
 
 (* while: at entry *)
-Theorem c06_while_entry : forall m T K f body s s1, step m Drop s = Ok s1 ->
+Theorem c06_while_entry : forall m T K f body s s1, cstep m Loop Drop s = Ok s1 ->
   (get s 0 = 1 -> exec_block m T K (S f) (BLoop body) s =
                   bind (exec_block m T K f body s1) (exec_loop m T K f body)) /\
-  (get s 0 = 0 -> exec_block m T K (S f) (BLoop body) s = step m Noop s1) /\
+  (get s 0 = 0 -> exec_block m T K (S f) (BLoop body) s = cstep m End Noop s1) /\
   (get s 0 <> 0 -> get s 0 <> 1 ->
      exec_block m T K (S f) (BLoop body) s = Err (NotBinary (get s 0)) s1).
 Proof.
@@ -39,8 +39,8 @@ Print Assumptions c06_while_entry.
 (* while: after every iteration the value left on top decides *)
 Theorem c06_while_iteration : forall m T K f body s,
   (get s 0 = 1 -> exec_loop m T K (S f) body s =
-     bind (step m Drop s) (fun s1 => bind (exec_block m T K f body s1) (exec_loop m T K f body))) /\
-  (get s 0 = 0 -> exec_loop m T K (S f) body s = step m Drop s) /\
+     bind (cstep m Repeat Drop s) (fun s1 => bind (exec_block m T K f body s1) (exec_loop m T K f body))) /\
+  (get s 0 = 0 -> exec_loop m T K (S f) body s = cstep m End Drop s) /\
   (get s 0 <> 0 -> get s 0 <> 1 -> exec_loop m T K (S f) body s = Err (NotBinary (get s 0)) s).
 Proof.
   intros m T K f body s.
@@ -56,8 +56,8 @@ Print Assumptions c06_join_order.
 
 Theorem c06_join_runs_children_in_order : forall m T K f x y s,
   exec_block m T K (S f) (BJoin x y) s =
-  bind (step m Noop s) (fun s1 => bind (exec_block m T K f x s1)
-       (fun s2 => bind (exec_block m T K f y s2) (step m Noop))).
+  bind (cstep m Join Noop s) (fun s1 => bind (exec_block m T K f x s1)
+       (fun s2 => bind (exec_block m T K f y s2) (cstep m End Noop))).
 Proof. exact join_seq. Qed.
 Print Assumptions c06_join_runs_children_in_order.
 
